@@ -67,7 +67,7 @@ func c14TCPJobs(tier string) []string {
 	}
 	// wrap points relative to ISS+1 (first data byte): 0, inside segment 1, at the boundary
 	// of segments 1/2, inside segment 2, at the boundary of segments 2/3, beyond everything sent
-	offs := []uint32{1, 5, 21, 30, 41, 70}
+	offs := []uint32{1, 5, 21, 30, 41, 50, 70}
 	if tier == "thorough" {
 		offs = []uint32{1, 2, 5, 20, 21, 22, 30, 41, 50, 70}
 	}
@@ -79,6 +79,8 @@ func c14TCPJobs(tier string) []string {
 			add(fmt.Sprintf("or=swc,devs=kwhlo,mss=24,w=72,pd=3x20,iss=%d,piss=%d,b=%d", iss, piss, b), 2)
 			// several writes below the MSS: the wrap falls inside one write, the next starts after it
 			add(fmt.Sprintf("or=swc,devs=kwhl,mss=536,w=20+100+30,pd=20,iss=%d,piss=%d,b=1", iss, piss), 1)
+			// the receiver's SACK blocks (merging of waiting segments) around the wrap
+			add(fmt.Sprintf("or=swc,devs=oe,mss=24,w=24,pd=4x20,psack=1,sack=1,iss=%d,piss=%d,b=1", iss, piss), 1)
 			if tier == "thorough" {
 				add(fmt.Sprintf("or=swc,devs=kwhloe,mss=24,w=72,pd=3x20,psack=1,sack=1,ts=1,iss=%d,piss=%d,b=1", iss, piss), 2)
 				add(fmt.Sprintf("or=swc,devs=kwhlo,mss=24,w=48,pd=2x20,iss=%d,piss=%d,b=2", iss, piss), 16)
